@@ -5,6 +5,7 @@ import (
 	_ "verif/checks/c01"
 	_ "verif/checks/c02"
 	_ "verif/checks/c03"
+	_ "verif/checks/c04"
 	_ "verif/checks/c05"
 	_ "verif/checks/c06"
 	_ "verif/checks/c07"
